@@ -81,7 +81,18 @@ func main() {
 		return r
 	}
 	pickN := func() int64 {
-		switch rng.Intn(4) {
+		switch rng.Intn(5) {
+		case 4:
+			// beyond 32 bits, both signs: a bound must be judged as the int it is, not by its low word
+			// (e.g. -(1<<32)+5 has a positive low word; 1<<32 has a zero one)
+			v := int64(rng.U64()>>uint(1+rng.Intn(31))) + 1<<31
+			if rng.Intn(3) == 0 {
+				v = int64(1)<<uint(32+rng.Intn(31)) + int64(rng.Intn(9)) - 4
+			}
+			if rng.Bool() {
+				return -v
+			}
+			return v
 		case 0:
 			return int64(int32(rng.U64()))
 		case 1:
@@ -104,9 +115,13 @@ func main() {
 		p, _ := vhlib.Recover(func() {
 			switch kind {
 			case 0:
+				n = int64(int32(n))
 				call, label = fmt.Sprintf("CInt31n %s", vhlib.Z(n)), "Int31n"
 				v = int64(fastrand.Int31n(int32(n)))
 			case 1:
+				if n > 1<<31-1 {
+					n = -n // large positive bounds draw from the runtime directly: they are the RIntnBig cases below
+				}
 				call, label = fmt.Sprintf("CIntn %s", vhlib.Z(n)), "Intn"
 				v = int64(fastrand.Intn(int(n)))
 			case 2:
